@@ -246,7 +246,7 @@ func checkPB(c pbCase) *vk.Failure {
 }
 
 func TestPB(t *testing.T) {
-	vk.Run(t, "pb", vk.Opts{Quick: 500, Thorough: 20000}, func(t *rapid.T) pbCase {
+	vk.Run(t, "pb", vk.Opts{Quick: 500, Thorough: 12000}, func(t *rapid.T) pbCase {
 		kds := []int{0, 1, 2, 3, 5, 8, 20, 31, 32, 33, 63, 64, 65, 66, 80, 96, 97, 120}
 		kd := kds[vk.NewSplitMix(rapid.Uint64().Draw(t, "kd")).Intn(len(kds))]
 		n := drawDim(t, "n", 80, 200)
